@@ -11,6 +11,9 @@
 // back as infinity) -- this is integer reasoning on (digits of M, E).
 #include "Digit.hpp"
 #include "vf.h"
+#ifdef SAFETY_ONLY   /* reused by C05 (memory safety of the number scanner): the value oracle is C09's subject, only CBMC's own bounds/pointer checks and termination count */
+#define vf_assert(c, id) ((void)(c))
+#endif
 using namespace Qentem;
 #ifndef LEN
 #define LEN 4
